@@ -112,6 +112,31 @@ def gap_before_unmodelled():
     return b"".join(S.frame(n, payload if n == b"TRIG" else p) for n, p in SC.chunks_of(b))
 
 
+def sound_entries_with_metadata():
+    """unmodelled entries that carry a sound (Transmission, type 7) with a stored length of 0 - and of 5 - saved WITH sound
+    metadata for that very path, as the archive save always does: the stored number is theirs, not the library's"""
+    import sections as S
+    g = SC.MapGen(random.Random(9), "editor", nloc=255, all_sections=True, ntrig=0)
+    b = g.build()
+    v = SC.SpecView(b)
+    w = v.by_name[b"WAV "][-1]
+    sids = [int.from_bytes(w[4 * k:4 * k + 4], "little") for k in range(512)]
+    sids = [x for x in sids if x]
+    if not sids:
+        return []
+    empty_a = dict.fromkeys(SC.ACTION_FIELDS, 0)
+    acts = [dict(empty_a, _action_id=7, _wav_string_id=sids[0], _time=0, _first_group=1, _text_string_id=sids[0]),
+            dict(empty_a, _action_id=7, _wav_string_id=sids[-1], _time=5, _first_group=2)] + [dict(empty_a)] * 62
+    trig = {"_conditions": [dict(dict.fromkeys(SC.COND_FIELDS, 0), _condition_id=22)] + [dict.fromkeys(SC.COND_FIELDS, 0)] * 15,
+            "_actions": acts,
+            "_player_execution": {"_execution_flags": 0, "_player_flags": [1] + [0] * 26, "_current_action_index": 0}}
+    payload = S.spec_write(S.SPEC_FULL["TRIG"], {"_triggers": [trig]})
+    b2 = b"".join(S.frame(n, payload if n == b"TRIG" else p) for n, p in SC.chunks_of(b))
+    meta = [[v.text(x), 4000 + 13 * i] for i, x in enumerate(sorted(set(sids)))]
+    return [("sound-entry+metadata", b2, dict(NO_EDIT, wav_meta=meta)),
+            ("sound-entry+metadata+edit", b2, dict(ONE_TRIGGER, wav_meta=meta))]
+
+
 def finding_witnesses():
     fx = dict(SC.fixtures())
     return {"upus-recomputed": (fx["test/resources/demon_lore_yatapi_test.chk"], NO_EDIT),
@@ -127,7 +152,7 @@ def boundary_cases(rng):
            ("gap-before-unmodelled", gap_before_unmodelled(), NO_EDIT)]
     for name, b in SC.fixtures():
         out.append(("fixture:" + name, b, NO_EDIT))
-    return out
+    return out + sound_entries_with_metadata()
 
 
 def replay(path: str) -> int:
